@@ -44,6 +44,10 @@ func genRec(cfg Config, emit func(string, bool, []string)) {
 		minB := []int{50, 100, 100, 200}[r.IntN(4)]
 		maxB := minB * []int{1, 2, 8, 16}[r.IntN(4)]
 		roundSize := []int{1000, 1000, 1, 2, 3}[r.IntN(5)]
+		truncated := c%25 == 8 || c%25 == 11 // rounds cut short by the round size in the middle of a transaction's changes
+		if truncated {
+			roundSize = 1 + r.IntN(3)
+		}
 		ancient := c%25 == 12
 		if ancient {
 			// backoff in hours: an object that has been failing for days
@@ -63,10 +67,43 @@ func genRec(cfg Config, emit func(string, bool, []string)) {
 		if c%10 == 6 {
 			// refreshing and pruning enabled (not in the Lean model: decided by the oracle only)
 			mode, refresh = "oracle", "-refresh"
+			if c%20 == 16 {
+				// ... on a table whose initializer stays pending over several prune intervals
+				refresh = "-refresh-init"
+			}
 		}
 		add("cfg %d %d %d %s%s%s%s", minB, maxB, roundSize, mode, set, map[int]string{0: "", 1: "-batch"}[batch], refresh)
 		nid := 1 + r.IntN(4)
 		clock := 0
+		if refresh == "-refresh-init" {
+			for id := 1; id <= 3; id++ {
+				add("put %d %d", id, r.IntN(100))
+			}
+			add("advance 1201")
+			add("obs")
+			add("advance 1103")
+			add("obs")
+			add("initdone")
+			add("advance 1109")
+			add("obs")
+		}
+		if truncated {
+			// several deletions (and an update) committed by ONE transaction, more than a round takes
+			for id := 1; id <= 5; id++ {
+				add("put %d %d", id, r.IntN(100))
+			}
+			add("advance 7")
+			add("obs")
+			if r.IntN(2) == 0 {
+				add("multi d1,d2,d3,p4:%d", r.IntN(100))
+			} else {
+				add("multi d1,d2,d3,d5")
+			}
+			add("advance 7")
+			add("obs")
+			add("advance 33")
+			add("obs")
+		}
 		if refresh != "" {
 			// objects get old enough to be refreshed; user writes land exactly when the refresher acts
 			nid = 2 + r.IntN(2)
@@ -138,6 +175,18 @@ func genRec(cfg Config, emit func(string, bool, []string)) {
 		for i := 0; i < steps; i++ {
 			id := 1 + r.IntN(nid)
 			switch x := r.IntN(100); {
+			case x < 3 && refresh == "":
+				// two or three writes in one transaction
+				var sp []string
+				for k := 2 + r.IntN(2); k > 0; k-- {
+					j := 1 + r.IntN(nid)
+					if r.IntN(2) == 0 {
+						sp = append(sp, fmt.Sprintf("d%d", j))
+					} else {
+						sp = append(sp, fmt.Sprintf("p%d:%d", j, r.IntN(100)))
+					}
+				}
+				add("multi %s", strings.Join(sp, ","))
 			case x < 28:
 				add("put %d %d", id, r.IntN(100))
 			case x < 38:
@@ -218,7 +267,8 @@ type recCall struct {
 	at      time.Duration
 	pending uint64 // status id of the object passed
 	kind    reconciler.StatusKind
-	stale   bool // the user had already changed / removed / re-created the object when this attempt ran
+	stale   bool   // the user had already changed / removed / re-created the object when this attempt ran
+	rev     uint64 // the revision argument of the operation (the change being reconciled)
 }
 
 type recExec struct {
@@ -249,7 +299,9 @@ type recExec struct {
 	delRev        map[uint64]uint64 // revision of the user's deletion of an object
 	lwSamples     []lwSample        // low-watermark as reported while a round is in progress
 	refresh       time.Duration     // refresh interval (0 = refreshing and pruning disabled)
-	retained      []retainedObj     // object versions read earlier, with what they looked like then
+	withInit      bool              // the table has an initializer that stays pending until `initdone`
+	initDone      func(statedb.WriteTxn)
+	retained      []retainedObj // object versions read earlier, with what they looked like then
 	inUpdate      uint64
 	inUpdateRetry bool
 }
@@ -337,7 +389,7 @@ func (e *recExec) doUpdate(rev statedb.Revision, obj *recObj) error {
 	delete(e.injects, obj.ID)
 	st := obj.GetStatus()
 	ref, live := e.ref[obj.ID]
-	c := recCall{op: "U", id: obj.ID, data: obj.Data, ok: !fail, at: e.since(), pending: st.ID, kind: st.Kind, stale: !live || ref.data != obj.Data}
+	c := recCall{op: "U", id: obj.ID, data: obj.Data, ok: !fail, at: e.since(), pending: st.ID, kind: st.Kind, stale: !live || ref.data != obj.Data, rev: uint64(rev)}
 	e.calls = append(e.calls, c)
 	if !fail {
 		e.target[obj.ID] = recTarget{true, obj.Data}
@@ -365,7 +417,7 @@ func (e *recExec) doDelete(rev statedb.Revision, obj *recObj) error {
 	defer e.mu.Unlock()
 	fail := e.failing[obj.ID]
 	_, live := e.ref[obj.ID]
-	e.calls = append(e.calls, recCall{op: "D", id: obj.ID, data: obj.Data, ok: !fail, at: e.since(), stale: live})
+	e.calls = append(e.calls, recCall{op: "D", id: obj.ID, data: obj.Data, ok: !fail, at: e.since(), stale: live, rev: uint64(rev)})
 	if fail {
 		return errors.New("fail")
 	}
@@ -441,6 +493,12 @@ func (e *recExec) setup(minB, maxB, roundSize int, batch bool) {
 		cell.Invoke(func(db *statedb.DB) (err error) {
 			e.db = db
 			e.table, err = statedb.NewTable(db, "rec-objects", recIDIndex)
+			if err == nil && e.withInit {
+				// a table initializer that stays pending until the `initdone` op
+				wtxn := db.WriteTxn(e.table)
+				e.initDone = e.table.RegisterInitializer(wtxn, "slow-initializer")
+				wtxn.Commit()
+			}
 			return err
 		}),
 		cell.Module("test", "test",
@@ -556,12 +614,64 @@ func (e *recExec) del(id uint64) {
 	_, had, _ := e.table.Delete(wtxn, &recObj{ID: id})
 	e.mu.Lock()
 	if had {
+		// (deleting an absent object changes nothing: the reconciler is not told anything)
 		e.delRev[id] = e.table.Revision(wtxn)
+		delete(e.ref, id)
+		e.calls = append(e.calls, recCall{op: "change", id: id, at: e.since()})
+		e.attempts[id] = 0
+		delete(e.k4, id)
 	}
-	delete(e.ref, id)
-	e.calls = append(e.calls, recCall{op: "change", id: id, at: e.since()})
-	e.attempts[id] = 0
-	delete(e.k4, id)
+	e.mu.Unlock()
+	wtxn.Commit()
+}
+
+func (e *recExec) multi(specs []string) {
+	wtxn := e.db.WriteTxn(e.table)
+	e.mu.Lock()
+	for _, sp := range specs {
+		if len(sp) < 2 {
+			continue
+		}
+		if sp[0] == 'd' {
+			id, _ := strconv.ParseUint(sp[1:], 10, 64)
+			e.mu.Unlock()
+			_, had, _ := e.table.Delete(wtxn, &recObj{ID: id})
+			e.mu.Lock()
+			if had {
+				e.delRev[id] = e.table.Revision(wtxn)
+				delete(e.ref, id)
+				e.calls = append(e.calls, recCall{op: "change", id: id, at: e.since()})
+				e.attempts[id] = 0
+				delete(e.k4, id)
+			}
+			continue
+		}
+		parts := strings.SplitN(sp[1:], ":", 2)
+		id, _ := strconv.ParseUint(parts[0], 10, 64)
+		data := 0
+		if len(parts) > 1 {
+			data, _ = strconv.Atoi(parts[1])
+		}
+		e.mu.Unlock()
+		other := 0
+		obj := &recObj{ID: id, Data: data, UseSet: e.useSet}
+		if old, _, ok := e.table.Get(wtxn, recIDIndex.Query(id)); ok {
+			other = old.Other
+			obj.Set = old.Set.Pending()
+		} else {
+			obj.Set = reconciler.NewStatusSet()
+		}
+		obj.Other = other
+		obj.Status = reconciler.StatusPending()
+		e.table.Insert(wtxn, obj)
+		rev := e.table.Revision(wtxn)
+		e.mu.Lock()
+		e.ref[id] = recRef{data: data, other: other, rev: rev}
+		e.calls = append(e.calls, recCall{op: "change", id: id, at: e.since()})
+		e.attempts[id] = 0
+		delete(e.k4, id)
+		delete(e.delRev, id)
+	}
 	e.mu.Unlock()
 	wtxn.Commit()
 }
@@ -657,6 +767,12 @@ func (e *recExec) settleOracle(o *Out) {
 		if obj.Data != ref.data || obj.Other != ref.other {
 			o.Fail("C15", "status-write-changed-data", nil, fmt.Sprintf("object %d has data=%d other=%d, the user wrote data=%d other=%d", obj.ID, obj.Data, obj.Other, ref.data, ref.other))
 		}
+		if obj.GetStatus().Kind == reconciler.StatusKindPending {
+			// a quiet point: every goroutine is blocked on a timer or a channel (synctest.Wait), the round
+			// limiter is unlimited; nothing but a later write would make the loop look at this object again
+			o.Fail("C14", "pending-object-while-idle", map[string]string{"batch": strconv.FormatBool(e.batch), "round_size": strconv.Itoa(e.roundSize)},
+				fmt.Sprintf("object %d (data %d) is still Pending although the reconciler is idle: the loop went to sleep with changes left to deliver", obj.ID, obj.Data))
+		}
 		if obj.GetStatus().Kind == reconciler.StatusKindDone {
 			t := e.target[obj.ID]
 			if !t.present || t.data != obj.Data {
@@ -674,6 +790,27 @@ func (e *recExec) settleOracle(o *Out) {
 			if last < 0 || e.calls[last].ok {
 				o.Fail("C15", "error-for-a-version-that-did-not-fail", map[string]string{"foreign_status_write_during_retry": strconv.FormatBool(e.k4[obj.ID])}, fmt.Sprintf("object %d (data %d) is marked Error without a failed Update of that version", obj.ID, obj.Data))
 			}
+		}
+	}
+	for id := range e.delRev {
+		if _, live := e.ref[id]; live || !e.target[id].present {
+			continue
+		}
+		// deleted by the user, still in the target: a Delete must have been attempted (and failed) since
+		lastChange, attempted := -1, false
+		for i, c := range e.calls {
+			if c.id != id {
+				continue
+			}
+			if c.op == "change" {
+				lastChange, attempted = i, false
+			} else if c.op == "D" && i > lastChange {
+				attempted = true
+			}
+		}
+		if !attempted {
+			o.Fail("C14", "deletion-not-delivered-while-idle", map[string]string{"batch": strconv.FormatBool(e.batch), "round_size": strconv.Itoa(e.roundSize)},
+				fmt.Sprintf("object %d was deleted, the target still holds it and no Delete has been attempted although the reconciler is idle", id))
 		}
 	}
 	for id := range e.ref {
@@ -701,7 +838,13 @@ func (e *recExec) settleOracle(o *Out) {
 		for obj, rev := range e.table.All(rtx) {
 			if obj.GetStatus().Kind == reconciler.StatusKindError {
 				if c, ok := lastCall("U", obj.ID); ok && !c.ok && c.data == obj.Data {
-					consider(rev, fmt.Sprintf("failed update of object %d (now at revision %d)", obj.ID, rev))
+					// the queued retry remembers the revision its failed attempt was given (first attempt: the
+					// revision of the change; a retry: the revision of the previous failure's status write)
+					r := rev
+					if c.rev > 0 && c.rev < r {
+						r = c.rev
+					}
+					consider(r, fmt.Sprintf("failed update of object %d (attempt made for revision %d, object now at %d)", obj.ID, r, rev))
 				}
 			}
 		}
@@ -802,6 +945,7 @@ func (e *recExec) Do(o *Out, f []string) string {
 		if strings.Contains(f[4], "-refresh") {
 			e.refresh = 700 * time.Millisecond
 		}
+		e.withInit = strings.Contains(f[4], "-init")
 		e.setup(minB, maxB, rs, strings.Contains(f[4], "-batch"))
 	case "put":
 		id, _ := strconv.ParseUint(f[1], 10, 64)
@@ -813,6 +957,16 @@ func (e *recExec) Do(o *Out, f []string) string {
 	case "touch":
 		id, _ := strconv.ParseUint(f[1], 10, 64)
 		e.touch(id)
+	case "multi":
+		// several user writes in ONE write transaction: "d<id>" deletes, "p<id>:<data>" puts
+		e.multi(strings.Split(f[1], ","))
+	case "initdone":
+		if e.initDone != nil {
+			wtxn := e.db.WriteTxn(e.table)
+			e.initDone(wtxn)
+			wtxn.Commit()
+			e.initDone = nil
+		}
 	case "putheld", "delheld":
 		// a user write that lands while the refresher is waiting for the table lock: the
 		// transaction is opened first, time runs up to the instant the object is due for a
